@@ -5,6 +5,7 @@ import (
 	"fmt"
 	"io"
 	"os"
+	"os/exec"
 	"path/filepath"
 	"sort"
 	"strconv"
@@ -396,7 +397,95 @@ func dumpAll(db database.DB, ids []int, lens map[int]int) string {
 
 // ---------------------------------------------------------------- exec
 
-func execDb(args []string) (out string) {
+// dumpUser renders what a user of the database sees: every bucket and key
+// except ffldb's own rows (write cursor, block index), and for every indexed
+// block whether it reads back intact.  No file layout enters.
+func dumpUser(db database.DB, ids []int, lens map[int]int) string {
+	var sb strings.Builder
+	_ = db.View(func(tx database.Tx) error {
+		root := tx.Metadata()
+		sb.WriteString("{")
+		first := true
+		_ = root.ForEach(func(k, v []byte) error {
+			if string(k) == "ffldb-writeloc" {
+				return nil
+			}
+			if !first {
+				sb.WriteString(",")
+			}
+			first = false
+			sb.WriteString(kvOut(k, v))
+			return nil
+		})
+		var names [][]byte
+		_ = root.ForEachBucket(func(k []byte) error {
+			if string(k) != "ffldb-blockidx" {
+				names = append(names, append([]byte{}, k...))
+			}
+			return nil
+		})
+		for _, n := range names {
+			if !first {
+				sb.WriteString(",")
+			}
+			first = false
+			sb.WriteString(hx(n))
+			dumpBucket(root.Bucket(n), &sb)
+		}
+		sb.WriteString("}#")
+		for _, id := range ids {
+			has, _ := tx.HasBlock(blockHash(id))
+			if !has {
+				continue
+			}
+			b, err := tx.FetchBlock(blockHash(id))
+			switch {
+			case err != nil:
+				fmt.Fprintf(&sb, "%d:%s,", id, errStr(err))
+			case string(b) == string(blockBytes(id, lens[id])):
+				fmt.Fprintf(&sb, "%d:ok,", id)
+			default:
+				fmt.Fprintf(&sb, "%d:DIFF,", id)
+			}
+		}
+		return nil
+	})
+	return sb.String()
+}
+
+// execDbf runs a fault / crash history on the real code and asks the Lean
+// driver whether the observed answers lie in the set of outcomes the property
+// admits ("adm" line: operations, "##", observations).
+func execDbf(args []string) string {
+	obs := execDbMode(args, true)
+	line := "C05 adm " + strings.Join(args, " ") + " ## " + strings.Join(strings.Split(obs, "|"), " ")
+	drv := os.Getenv("VERIF_BVDRV")
+	if drv == "" {
+		vd := os.Getenv("VERIF_DIR")
+		if vd == "" {
+			vd = "/verif"
+		}
+		drv = filepath.Join(vd, "lean/.lake/build/bin/drv_c05")
+	}
+	cmd := exec.Command(drv)
+	cmd.Stdin = strings.NewReader(line + "\n")
+	out, err := cmd.Output()
+	if err != nil {
+		return "adm-driver-failed"
+	}
+	verdict := strings.TrimSpace(string(out))
+	if verdict == "admissible" {
+		return verdict
+	}
+	if len(obs) > 1500 {
+		obs = obs[:1500]
+	}
+	return verdict + " observed=" + obs
+}
+
+func execDb(args []string) string { return execDbMode(args, false) }
+
+func execDbMode(args []string, userOnly bool) (out string) {
 	if len(args) < 2 {
 		return "bad-op"
 	}
@@ -784,7 +873,11 @@ func execDb(args []string) (out string) {
 			if err := h2.open(false); err != nil {
 				o = "open-" + errStr(err)
 			} else {
-				o = dumpAll(h2.db, blockIDs, blockLens)
+				if userOnly {
+					o = dumpUser(h2.db, blockIDs, blockLens)
+				} else {
+					o = dumpAll(h2.db, blockIDs, blockLens)
+				}
 				_ = h2.db.Close()
 			}
 			h.f.imgKind = ""
@@ -803,6 +896,8 @@ func execDb(args []string) (out string) {
 			data[off] ^= 0x01
 			_ = os.WriteFile(p, data, 0o600)
 			o = "ok"
+		case "du":
+			o = dumpUser(h.db, blockIDs, blockLens)
 		case "da":
 			o = dumpAll(h.db, blockIDs, blockLens)
 		default:
